@@ -428,6 +428,10 @@ func (w *World) ruleAlwaysWrites(r *Report, rule string) {
 			}
 		}
 	}
+	isFn := map[*ssa.Function]bool{}
+	for _, fn := range fns {
+		isFn[fn] = true
+	}
 	aw := map[*ssa.Function]bool{}
 	for _, fn := range cands {
 		aw[fn] = true
@@ -496,6 +500,15 @@ func (w *World) ruleAlwaysWrites(r *Report, rule string) {
 		changed = false
 		for _, fn := range cands {
 			if aw[fn] && !eval(fn) {
+				// the reported writers get a second, path-level look with their helpers
+				// stepped into (the block-level walk cannot relate two helpers' results)
+				if isFn[fn] {
+					if ok, y := w.alwaysWritesPX(fn, aw); ok {
+						continue
+					} else if y != "" {
+						why[fn] = y
+					}
+				}
 				aw[fn] = false
 				changed = true
 			}
